@@ -36,7 +36,7 @@ check(
     "C10",
     "fault_enumeration",
     "Seeded sampling of crash points and crash sequences: every run executes the real MD engine, HDF5/XYZ writers and checkpoint code under a simulator-owned I/O seam; 1-3 crashes per run (hard kill at a low-level I/O event incl. torn writes, hard kill at a Python line event, exception unwinding, ENOSPC on the checkpoint path, crashes inside resume initialisation) with resume after each; the final files must equal those of the uninterrupted run exactly and the checkpoint on disk must load after every crash. Sampling, not exhaustive: a clean batch is evidence, not proof.",
-    "Crash = process death (page cache survives). HDF5 low-level driver substituted by h5py's file-object driver so that each pwrite is an event. Engines: BOMD, Langevin, XL-BOMD k=3..9, damped XL, KSA, excited-state BOMD / XL-BOMD / XL-ESMD (stub with synthetic amplitudes and transition densities, and real), surface hopping (model engine and three pinned production runs), UHF BOMD/Langevin on the real driver; options incl. write_mo, transition properties, transition-density cadence. Electronic structure is a stub for most runs (real SEQM in a stated fraction). Two committed known findings, matched by site, not by property id: the HDF5 torn-flush window (crash site inside a flush/close burst) and production XL-ESMD with transition properties requested (engine + option + TypeError of a resuming incarnation at the transition_dipole line; record 4 of every run).",
+    "Crash = process death (page cache survives). HDF5 low-level driver substituted by h5py's file-object driver so that each pwrite is an event. Engines: BOMD, Langevin, XL-BOMD k=3..9, damped XL, KSA, excited-state BOMD / XL-BOMD / XL-ESMD (stub with synthetic amplitudes and transition densities, and real), surface hopping (model engine and three pinned production runs), UHF BOMD/Langevin on the real driver; options incl. write_mo, transition properties, transition-density cadence, reuse_P on/off (also for production surface hopping), an output prefix already used by an earlier completed run. Electronic structure is a stub for most runs (real SEQM in a stated fraction). Two committed known findings, matched by site, not by property id: the HDF5 torn-flush window (crash site inside a flush/close burst) and production XL-ESMD with transition properties requested (engine + option + TypeError of a resuming incarnation at the transition_dipole line; record 4 of every run).",
     "deterministic simulation: seeded crash/fault schedules over an I/O-event and line-event clock, fork-per-incarnation, exact comparison with a fault-free reference run",
     "mdsim",
     "DESIGN.md section 5 (C10)",
@@ -85,7 +85,7 @@ check(
 check(
     "C12",
     "exploration",
-    "The simulator owns the random stream: a recording proxy for torch.randn_like captures the noise of EVERY thermostat application and a wrapper captures velocities before/after, so the fluctuation-dissipation update v' = c1 v + c2 xi is checked exactly (1e-6, independent CODATA constants) over dt/tau in 1e-4..10, T in 0..2000 K, masses H..Cl, padded batches, Langevin BOMD, damped XL-BOMD/KSA/XL-ESMD, model and production surface hopping, reused thermostat objects; also the schedule (two half-step applications around the force evaluation, first and last operation of the step), the invariance identity on the engine's own tensors, the limits (tau=inf equals NVE bit for bit, deviation ~ tau^-1/2, T=0 only removes energy) and a deliberately coarse end-to-end mean temperature on exactly solvable stub systems.",
+    "The simulator owns the random stream: a recording proxy for torch.randn_like captures the noise of EVERY thermostat application and a wrapper captures velocities before/after, so the fluctuation-dissipation update v' = c1 v + c2 xi is checked exactly (1e-6, independent CODATA constants) over dt/tau in 1e-4..10, T in 0..2000 K, masses H..Cl, padded batches, Langevin BOMD, damped XL-BOMD/KSA/XL-ESMD, model and production surface hopping, reused thermostat objects; also the schedule (two half-step applications around the force evaluation, first and last operation of the step), the invariance identity on the engine's own tensors, the limits (tau=inf equals NVE bit for bit, deviation ~ tau^-1/2, T=0 only removes energy) and a deliberately coarse end-to-end mean temperature on exactly solvable stub systems, with and without periodic centre-of-mass removal.",
     "The statistical layer is coarse by design (max(3%, 6 sigma)); the exact layers decide the identity. Configurational sampling accuracy on anharmonic real surfaces is not reached.",
     "deterministic simulation: simulator-owned RNG (recording proxy) turns the statistical statement into an exact per-application check; seeded (dt, tau, T, mass, engine) exploration",
     "mdsim",
@@ -145,8 +145,8 @@ check(
 check(
     "C16",
     "exploration",
-    "Excited-state sessions: one Molecule object followed along neighbouring geometries with the Davidson solver's history carried (amplitudes, orbitals, density), guess reuse on/off, faults on the carried amplitudes (re-orthonormalised noise, stale by two geometries, permuted order, one vector replaced) and the available-memory probe set so that the subspace limit lies anywhere between 2n+3 and the full space (which also switches on chunking of the sigma build). Every solve is compared with a dense reference (the code's own sigma routine applied to unit vectors, then eigh; RPA through (A-B)^1/2 (A+B) (A-B)^1/2): lowest-n energies within 10 x tolerance, ascending, positive, orthonormal amplitudes, eigen-residual, RPA <= CIS, every row of a homogeneous batch and every member of a mixed batch against its own reference.",
-    "The reference uses the code's sigma routine (operator correctness is C06, not applicable). Guess reuse is generated only where the library implements it (homogeneous CIS); RPA and mixed batches see history through the carried density/orbitals. The symmetry-blocked skipped-root defect is a committed known finding matched by its signature.",
+    "Excited-state sessions: one Molecule object followed along neighbouring geometries with the Davidson solver's history carried (amplitudes, orbitals, density), guess reuse on/off, faults on the carried amplitudes (re-orthonormalised noise, stale by two geometries, permuted order, one vector replaced) and the available-memory probe set so that the subspace limit lies anywhere between 2n+3 and the full space (which also switches on chunking of the sigma build). Every solve is compared with a dense reference (the code's own sigma routine applied to unit vectors, then eigh; RPA through (A-B)^1/2 (A+B) (A-B)^1/2): lowest-n energies within 10 x tolerance, ascending, positive, orthonormal amplitudes, eigen-residual, RPA <= CIS, every row of a homogeneous batch and every member of a mixed batch against its own reference. Two twins on new objects: sessions in which the caller writes a loose SCF threshold (1e-4..1e-6) against a tightly converged ground state (20 x tolerance), and orbital-window sessions on a re-used Molecule against new objects at the same geometry.",
+    "The reference uses the code's sigma routine (operator correctness is C06, not applicable). Guess reuse is generated only where the library implements it (homogeneous CIS); RPA and mixed batches see history through the carried density/orbitals. Two committed known findings matched by signature / site: the symmetry-blocked skipped root, and the orbital window cut by position after MO tracking on a re-used Molecule (window session AND second or later solve AND the new-objects twin).",
     "deterministic simulation: seeded solver histories with faults on carried state and a simulator-owned environment probe (available memory), checked against a dense reference model",
     "scfsim",
     "DESIGN.md section 5 (C16)",
